@@ -378,11 +378,14 @@ fn replay_inner(scratch: &std::path::Path, start: Start, subs: &[Sub]) -> RunRes
             if answer == "http-202" && is_valid_own && !start.is_open() {
                 honest_buffered.insert(s.by);
             }
-            if ok && matches!(s.idx, Idx::OtherMessage | Idx::NextEpochRegistration) && s.by == s.label && !start.is_open() {
-                replayed_under.insert(s.label);
-            }
-            if ok && s.by != s.label && s.route != Route::Http && !start.is_open() {
-                mislabelled_queue_under.insert(s.label);
+            // a submission answered "buffered" under a party's name that is not a valid signature of
+            // this round by that party takes the place of whatever the buffer held for that party
+            if ok && !is_valid_own && !start.is_open() {
+                if s.by == s.label {
+                    replayed_under.insert(s.label);
+                } else if s.route != Route::Http {
+                    mislabelled_queue_under.insert(s.label);
+                }
             }
             if ok {
                 accepted.push(Accepted { sub: *s, answer: answer.clone() });
@@ -440,7 +443,7 @@ fn replay_inner(scratch: &std::path::Path, start: Start, subs: &[Sub]) -> RunRes
                             violations.push(Violation {
                                 key: "C16/buffered-contribution-evicted-by-replayed-signature".into(),
                                 what: format!(
-                                    "party #{h}'s own valid signature was answered 202 (buffered); then another genuine signature of party #{h} that is not a signature of this round (made on ANOTHER message of the epoch and posted with that message as signed_message, or made under its registration for the next epoch) was posted under its name with the same entity type as label: answered 202, it replaced the buffered entry (the buffer holds one entry per (type, party) and the route authenticates against the peer-supplied message); at hand-over it is refused and nothing is recorded for party #{h}"
+                                    "party #{h}'s own valid signature was answered 202 (buffered); then another submission made with party #{h}'s key that is not a valid signature of this round (a genuine signature on ANOTHER message of the epoch posted with that message as signed_message, one made under its registration for the next epoch, or - through the message queue, which marks everything authenticated - one carrying an index it did not win) arrived under its name with the same entity type as label: answered 202 / accepted, it replaced the buffered entry (the buffer holds one entry per (type, party) and the route authenticates against the peer-supplied message); at hand-over it is refused and nothing is recorded for party #{h}"
                                 ),
                                 replay,
                             });
